@@ -307,7 +307,16 @@ impl<'t> Gen<'t> {
     }
 
     pub fn float_val(&mut self, ty: RangeTy) -> f64 {
-        let v: f64 = match self.t.weighted(&[4, 3, 2, 1, 1]) {
+        let v: f64 = match self.t.weighted(&[4, 3, 2, 1, 1, 1]) {
+            // numbers whose shortest decimal form has 17 significant digits and that a fast, non-round-tripping
+            // JSON float parser reads one ULP off (finding D24)
+            5 => {
+                if ty == RangeTy::F32 {
+                    *self.t.choose(&[3.4028234663852886e38, -3.4028234663852886e38, 9.999999680285692e-41])
+                } else {
+                    *self.t.choose(&[8.988465674311579e307, -8.988465674311579e307, 3.4028234663852886e38, -3.4028234663852886e38, 9.999999680285692e-41])
+                }
+            }
             0 => (self.t.range(0, 20) as f64) - 5.0,
             1 => ((self.t.range(0, 400) as f64) - 200.0) / 8.0,
             2 => ((self.t.range(0, 2000) as f64) - 1000.0) / 10.0,
